@@ -1,1 +1,18 @@
-fn main(){}
+//! C20, type-level part: flat and deep expressions over thread-safe data types are Send and Sync.
+//! This binary only has to compile; /verif/run.sh reports a C20 violation if it does not.
+use exmex::{DeepEx, FlatEx, Val, ValMatcher, ValOpsFactory};
+use exmex_verif::term::{DynOps, Term, TermMatcher};
+
+fn assert_send_sync<T: Send + Sync>() {}
+
+fn main() {
+    assert_send_sync::<FlatEx<f64>>();
+    assert_send_sync::<FlatEx<f32>>();
+    assert_send_sync::<DeepEx<'static, f64>>();
+    assert_send_sync::<FlatEx<Val<i32, f64>, ValOpsFactory<i32, f64>, ValMatcher>>();
+    assert_send_sync::<DeepEx<'static, Val<i32, f64>, ValOpsFactory<i32, f64>, ValMatcher>>();
+    assert_send_sync::<FlatEx<Term, DynOps, TermMatcher>>();
+    assert_send_sync::<DeepEx<'static, Term, DynOps, TermMatcher>>();
+    assert_send_sync::<exmex::ExError>();
+    println!("Send + Sync hold for FlatEx and DeepEx over f64, f32, Val and the term algebra");
+}
